@@ -88,9 +88,19 @@ def shared():
     pf.solvePDE(v2, terms(m))
 
 
+def selftest():
+    m = pf.Grid2D(2, 3, 1.0, 1.0)
+    v = pf.CellVariable(m, 1.0)
+    pf.solvePDE(v, terms(m))
+    v.BCs.top.c[0:1] = 4.0           # the only edit before the second solve
+    pf.solvePDE(v, terms(m))
+
+
 if __name__ == "__main__":
     if sys.argv[1] == "shared":
         shared()
+    elif sys.argv[1] == "selftest":
+        selftest()
     else:
         rng = random.Random(int(sys.argv[2]))
         for _ in range(int(sys.argv[3])):
